@@ -207,7 +207,8 @@ def _jsonable(x):
 
 
 def write_replay(prop, tier, seed, d, sub):
-    rdir = os.path.join(ROOT, "replays", prop)
+    rdir = os.path.join(ROOT, "replays", prop) if not os.environ.get("VERIF_NO_EVIDENCE") else os.path.join(
+        "/tmp", "vmut-replays", prop)
     os.makedirs(rdir, exist_ok=True)
     body = dict(
         property=prop, tier=tier, seed=seed, sub_check=d["sub_check"], index=d["index"],
@@ -327,7 +328,7 @@ def run_property(prop, tier, seed, replay=None, jobs=None, only=None):
                 msg = str((t.get("problems") or [""])[0]) if t.get("problems") else ("" if t.get("kind") else d["message"])
                 key = (sub.name,) + tuple("%s=%s" % (k, t.get(k)) for k in (
                     "kind", "cmd", "prev_kind", "exc", "op", "field", "segkind", "first_kind", "status", "entry",
-                    "fault", "family", "getter", "setter", "unit", "ua", "ub", "form", "fn", "which", "access", "u1", "u2", "wrap", "pos", "side", "names", "nargs", "align", "mos", "supply", "comp", "ws", "vb", "complete", "zero_vb", "zero_el", "reify", "obj", "event") if t.get(k) is not None) + (
+                    "fault", "family", "getter", "setter", "unit", "ua", "ub", "form", "fn", "which", "access", "u1", "u2", "wrap", "pos", "side", "names", "nargs", "align", "mos", "supply", "comp", "ws", "vb", "complete", "zero_vb", "zero_el", "reify", "obj", "event", "shape", "how", "m", "kind2") if t.get(k) is not None) + (
                     re.sub(r"[-+]?[0-9]*\.?[0-9]+(?:[eE][-+]?[0-9]+)?", "#", msg)[:150],)
                 grp[key] += 1
                 ex.setdefault(key, d["case"])
@@ -384,9 +385,12 @@ def run_property(prop, tier, seed, replay=None, jobs=None, only=None):
                   "numpy/scipy/PIL are absent from /venv: the pure-Python code paths are what ran",
                   "library imported from %s" % src_file],
               wall_s=round(wall, 3), violations=violations)
-    os.makedirs(os.path.join(ROOT, "evidence"), exist_ok=True)
-    with open(os.path.join(ROOT, "evidence", prop + ".json"), "w") as f:
-        json.dump(ev, f, indent=1, sort_keys=True, default=repr)
+    if not os.environ.get("VERIF_NO_EVIDENCE"):
+        # (VERIF_NO_EVIDENCE is set only by tools/try_patch.sh when running against a scratch mutant copy, so that a
+        #  mutant run never overwrites the evidence of the real tree)
+        os.makedirs(os.path.join(ROOT, "evidence"), exist_ok=True)
+        with open(os.path.join(ROOT, "evidence", prop + ".json"), "w") as f:
+            json.dump(ev, f, indent=1, sort_keys=True, default=repr)
     print("%s tier=%s seed=%d: %d sub-checks, %d executions, %d distinct non-trivial, states=%d transitions=%d "
           "violations=%d known=%d wall=%.1fs" % (prop, tier, seed, len(subs), tot_eval, tot_nontriv, tot_states,
                                                  tot_trans, violations, sum(known_hit.values()), wall))
